@@ -1,30 +1,30 @@
 SPECIFICATION NodeSpec
 CONSTANTS
-  Locus <- L1Locus
-  Keys <- L1Keys
-  Queries <- L1Queries
+  Locus <- L0Locus
+  Keys <- L0Keys
+  Queries <- L0Queries
   Vals <- NNone
   Times <- NNone
   TouchTimes <- NNone
   ExpTimes <- NNone
   Exps <- NNone
   Configs <- NNone
-  MaxOps = 3
+  MaxOps = 2
   LocalID <- NLocal
-  PeerIDs <- L1Few
-  DataKeys <- L1Data
+  PeerIDs <- L0Peers
+  DataKeys <- L0Data
   Infos = {1, 2}
   DVals = {1, 2}
   PutTTLs = {0, 2}
-  HPutTTLs = {1, 99}
+  HPutTTLs = {1, 3, 99}
   PeerTTL = 1
   MaxDataTTL = 2
   MaxNow = 3
-  NodeConfigs <- L1EmptyConfigs
-  Targets <- L1Targets
-  Limits <- L1Limits
+  NodeConfigs <- L0Configs
+  Targets <- L0Targets
+  Limits <- L0Limits
   Orig <- NNone
 VIEW nview
-INVARIANTS NodeTypeOK CachesOK GhostAgrees ObsLawsHold
-PROPERTIES NodeStepLawsProp
+INVARIANTS NodeTypeOK
+PROPERTIES TTLHonouredProp
 CHECK_DEADLOCK FALSE
